@@ -65,7 +65,7 @@ FlagIf(o, cond, c) == IF cond THEN Flag(o, c) ELSE o
 Owing(o) == FlagIf([o EXCEPT !.owed = 0], o.owed # 0, "C14_AsSoonAs")
 
 NewRq(e) == [r |-> e.r, con |-> e.con, sub |-> e.t, tx |-> -1, done |-> "no",
-             doneAt |-> 0, cls |-> "", n |-> 0]
+             doneAt |-> 0, cls |-> "", early |-> FALSE]
 
 ObsSubmit(o0, e) ==
   LET o == Owing(o0)
@@ -113,8 +113,15 @@ ObsTx(o0, e) ==
                             o0.owed # 0 /\ (o0.owed # e.q \/ o0.owedAt # e.t), "C14_AsSoonAs")
        IN IF isCopy THEN ObsTxCopy(o, e) ELSE ObsTxFirst(o, e)
 
-ObsRx(o0, e) ==
-  LET o == Owing(o0)
+(* A response to a request that has not been put on the wire yet can only be *)
+(* a forgery with a guessed token; such a request is outside C14's promise.  *)
+MarkEarly(o, e) ==
+  IF e.cls = "resp" /\ e.q # 0 /\ Has(o.rq, e.q) /\ o.rq[e.q].tx = -1
+    THEN [o EXCEPT !.rq[e.q].early = TRUE] ELSE o
+
+ObsRx(o00, e) ==
+  LET o0 == MarkEarly(o00, e)
+      o == Owing(o0)
       key == <<e.r, e.mid>>
   IN IF e.ty \in {"ACK", "RST"} /\ Has(o.ex, key) /\ o.ex[key].res = "none"
         /\ MaybeOpen(o.ex[key], e.t)
@@ -174,7 +181,7 @@ EndBad(o, t) ==
             LET x == o.ex[k] IN x.res = "rst" /\ ~(RqDoneBy(o, x.q, x.resAt))
      \/ c = "C03_ErrFailsRequest" /\ \E k \in DOMAIN o.ex :
             LET x == o.ex[k] IN x.res = "err" /\ ~(RqDoneBy(o, x.q, x.resAt))
-     \/ c = "C14_NoneForgotten" /\ \E q \in DOMAIN o.rq : o.rq[q].tx = -1 /\ o.rq[q].done # "err"
+     \/ c = "C14_NoneForgotten" /\ \E q \in DOMAIN o.rq : o.rq[q].tx = -1 /\ o.rq[q].done # "err" /\ ~o.rq[q].early
      \/ c = "C14_AsSoonAs" /\ o.owed # 0 }
 
 ObsEnd(o, e) == [o EXCEPT !.bad = @ \cup EndBad(o, e.t), !.owed = 0]
